@@ -47,7 +47,12 @@ pub struct Inner {
     pub removed_live: u64,
     /// every document / tombstone ever written: (keyspace, id, stamp, bytes or None for a tombstone)
     pub log: Vec<(String, Key, HLCTimestamp, Option<Vec<u8>>)>,
+    /// for every `log` entry, its position in the process-wide order of successful writes
+    pub log_seq: Vec<u64>,
 }
+
+/// Process-wide order of successful storage writes (all stores, all threads).
+pub static WRITE_SEQ: std::sync::atomic::AtomicU64 = std::sync::atomic::AtomicU64::new(0);
 
 #[derive(Clone)]
 pub struct ModelStore {
@@ -200,6 +205,7 @@ impl Storage for ModelStore {
                 {
                     let mut g = self.inner.lock();
                     g.keyspaces.insert(keyspace.to_string());
+                    g.log_seq.push(WRITE_SEQ.fetch_add(1, std::sync::atomic::Ordering::SeqCst));
                     g.log.push((keyspace.to_string(), document.id(), document.last_updated(), Some(document.data().to_vec())));
                     g.data
                         .entry(keyspace.to_string())
@@ -229,6 +235,7 @@ impl Storage for ModelStore {
             let mut g = self.inner.lock();
             g.keyspaces.insert(keyspace.to_string());
             for d in docs.iter().take(limit) {
+                g.log_seq.push(WRITE_SEQ.fetch_add(1, std::sync::atomic::Ordering::SeqCst));
                 g.log.push((keyspace.to_string(), d.id(), d.last_updated(), Some(d.data().to_vec())));
             }
             let ks = g.data.entry(keyspace.to_string()).or_default();
@@ -251,6 +258,7 @@ impl Storage for ModelStore {
                 {
                     let mut g = self.inner.lock();
                     g.keyspaces.insert(keyspace.to_string());
+                    g.log_seq.push(WRITE_SEQ.fetch_add(1, std::sync::atomic::Ordering::SeqCst));
                     g.log.push((keyspace.to_string(), doc_id, timestamp, None));
                     g.data.entry(keyspace.to_string()).or_default().insert(doc_id, (timestamp, None));
                 }
@@ -277,6 +285,7 @@ impl Storage for ModelStore {
             let mut g = self.inner.lock();
             g.keyspaces.insert(keyspace.to_string());
             for d in docs.iter().take(limit) {
+                g.log_seq.push(WRITE_SEQ.fetch_add(1, std::sync::atomic::Ordering::SeqCst));
                 g.log.push((keyspace.to_string(), d.id, d.last_updated, None));
             }
             let ks = g.data.entry(keyspace.to_string()).or_default();
